@@ -95,6 +95,10 @@ type rawViolation struct {
 	EventHash    uint64 `json:"event_log_hash"`
 	Unseeded     uint64 `json:"runtime_select_picks_digest"`
 	Shrunk       bool   `json:"minimised"`
+	// Explore: the run is re-generated from the seed instead of a recorded choice list
+	// (crash and hang violations: the process died before the trace could be written)
+	Explore bool     `json:"regenerate_from_seed,omitempty"`
+	Enum    []uint32 `json:"enumeration_case,omitempty"`
 }
 
 type workerOut struct {
@@ -171,6 +175,8 @@ func worker(t *testing.T, p *Prop, tier string, base uint64, from, to int, outPa
 		if enum != nil {
 			ch.Force("enum", enum[i])
 		}
+		// which run is in flight: lets the parent attribute a crash or a hang of this process
+		os.WriteFile(outPath+".cur", []byte(fmt.Sprintf("%d %d", i, seed)), 0o644)
 		o, fault := runGuarded(t, p, ch, tier)
 		if fault != "" {
 			out.Fault = fmt.Sprintf("run %d seed %d: %s", i, seed, fault)
@@ -234,6 +240,12 @@ func writeJSON(path string, v interface{}) {
 
 func replayOnce(t *testing.T, p *Prop, v *rawViolation) (Outcome, string) {
 	ch := sim.NewReplay(v.Seed, v.Choices)
+	if v.Explore {
+		ch = sim.NewExplore(v.Seed)
+		if v.Enum != nil {
+			ch.Force("enum", v.Enum)
+		}
+	}
 	race := newRaceWatch()
 	o, fault := runGuarded(t, p, ch, v.Tier)
 	if txt := race.check(); txt != "" && fault == "" {
@@ -250,6 +262,10 @@ func replayMatching(t *testing.T, p *Prop, v *rawViolation, attempts int) (o Out
 	for tries = 1; tries <= attempts; tries++ {
 		o, fault = replayOnce(t, p, v)
 		if fault != "" || o.Unseeded == v.Unseeded {
+			return
+		}
+		if v.Class == "race" && o.Class == "race" {
+			// ThreadSanitizer reports a racing pair once per process: take it when it comes
 			return
 		}
 	}
@@ -567,7 +583,13 @@ func parentRun(p *Prop, tier string, base uint64, nworkers int) int {
 		cmd      *exec.Cmd
 		out      string
 		buf      *bytes.Buffer
+		hung     bool
 	}
+	hangLimit := 100 * time.Second
+	if tier == "thorough" {
+		hangLimit = 5 * time.Minute
+	}
+	var died []rawViolation // runs during which a worker process crashed or hung
 	chunkMax := 250
 	chunk := (total + nworkers - 1) / nworkers
 	if chunk > chunkMax {
@@ -610,11 +632,28 @@ func parentRun(p *Prop, tier string, base uint64, nworkers int) int {
 		}
 		j.cmd = cmd
 		nprocs++
-		// watchdog: the wall budget plus a grace period
+		// watchdogs: the wall budget plus a grace period; and no single run may take longer
+		// than hangLimit (the marker file is rewritten before every run)
 		timer := time.AfterFunc(time.Until(deadline)+5*time.Minute, func() { cmd.Process.Kill() })
+		stop := make(chan struct{})
+		go func() {
+			for {
+				select {
+				case <-stop:
+					return
+				case <-time.After(2 * time.Second):
+				}
+				if st, err := os.Stat(j.out + ".cur"); err == nil && time.Since(st.ModTime()) > hangLimit {
+					j.hung = true
+					cmd.Process.Kill()
+					return
+				}
+			}
+		}()
 		go func() {
 			err := cmd.Wait()
 			timer.Stop()
+			close(stop)
 			doneCh <- doneMsg{j, err}
 		}()
 		return true
@@ -635,8 +674,24 @@ func parentRun(p *Prop, tier string, base uint64, nworkers int) int {
 		var wo workerOut
 		b, rerr := os.ReadFile(d.j.out)
 		if rerr != nil || json.Unmarshal(b, &wo) != nil {
-			faultMsg = fmt.Sprintf("worker [%d,%d) produced no result (%v)\n%s", d.j.from, d.j.to, d.err, tail(d.j.buf.String(), 4000))
-			break
+			// the worker process died: which run was in flight?
+			var ri int
+			var rs uint64
+			cur, _ := os.ReadFile(d.j.out + ".cur")
+			if n, _ := fmt.Sscanf(string(cur), "%d %d", &ri, &rs); n != 2 {
+				faultMsg = fmt.Sprintf("worker [%d,%d) produced no result (%v)\n%s", d.j.from, d.j.to, d.err, tail(d.j.buf.String(), 4000))
+				break
+			}
+			class, detail := "crash", crashHeadline(d.j.buf.String())
+			if d.j.hung {
+				class, detail = "hang", fmt.Sprintf("the run did not finish within %v", hangLimit)
+			}
+			v := rawViolation{Property: p.ID, Tier: tier, Run: ri, Seed: rs, Class: class, Key: class + ":" + crashKey(detail), Detail: detail + "\n" + tail(d.j.buf.String(), 3000), Explore: true}
+			if p.Enumerate != nil {
+				v.Enum = p.Enumerate(tier)[ri]
+			}
+			died = append(died, v)
+			continue
 		}
 		if wo.Fault != "" {
 			faultMsg = wo.Fault
@@ -668,6 +723,23 @@ func parentRun(p *Prop, tier string, base uint64, nworkers int) int {
 		}
 		fmt.Fprintf(os.Stderr, "HARNESS-FAULT: %s\n", faultMsg)
 		return 2
+	}
+	// a run that killed its worker process is a violation only if it does so again, alone,
+	// in a fresh process; otherwise it is harness trouble
+	os.MkdirAll(filepath.Join(verifRoot(), "replays"), 0o755)
+	var diedConfirmed []rawViolation
+	for i, v := range died {
+		if i >= 3 {
+			break
+		}
+		replay := filepath.Join(verifRoot(), "replays", fmt.Sprintf("%s-%d.json", p.ID, v.Seed))
+		writeJSON(replay, &v)
+		if code, outb := runReplayChild(replay, tmp, hangLimit); code == 1 && strings.Contains(outb, "REPRODUCED") {
+			diedConfirmed = append(diedConfirmed, v)
+		} else {
+			fmt.Fprintf(os.Stderr, "HARNESS-FAULT: a worker process died (%s) during run %d seed %d but the run alone does not reproduce it (exit %d)\n%s\n", v.Class, v.Run, v.Seed, code, tail(v.Detail, 2500))
+			return 2
+		}
 	}
 	// distinct violations by (class,key)
 	known := loadKnown()
@@ -740,6 +812,15 @@ func parentRun(p *Prop, tier string, base uint64, nworkers int) int {
 			}
 		}
 		results = append(results, r)
+	}
+	for _, v := range diedConfirmed {
+		results = append(results, vres{v: v, replay: filepath.Join(verifRoot(), "replays", fmt.Sprintf("%s-%d.json", p.ID, v.Seed))})
+		for i := range known {
+			k := &known[i]
+			if k.Property == p.ID && k.Status == "known" && k.Class == v.Class && k.Key == v.Key {
+				results[len(results)-1].known = k
+			}
+		}
 	}
 	unknown := 0
 	for _, r := range results {
@@ -920,4 +1001,62 @@ func parentDeterminism(p *Prop, tier string, base uint64, n int) int {
 		return 1
 	}
 	return 0
+}
+
+// crashHeadline extracts the first line of a Go crash ("fatal error: ..." / "panic: ...").
+func crashHeadline(out string) string {
+	for _, l := range strings.Split(out, "\n") {
+		if strings.HasPrefix(l, "fatal error:") || strings.HasPrefix(l, "panic:") || strings.HasPrefix(l, "SIGSEGV") || strings.HasPrefix(l, "unexpected fault address") {
+			return l
+		}
+	}
+	return "the worker process died without a Go crash message"
+}
+
+func crashKey(s string) string {
+	if i := strings.Index(s, "[recovered"); i > 0 {
+		s = s[:i]
+	}
+	if len(s) > 80 {
+		s = s[:80]
+	}
+	return stripDigits(strings.TrimSpace(s))
+}
+
+// runReplayChild replays a file in a fresh process with a time limit.
+// It returns the exit code (-1 = killed after the time limit) and the combined output.
+func runReplayChild(replay, tmp string, limit time.Duration) (int, string) {
+	cmd := childCmd("-sim.cmd=replay", "-sim.file="+replay)
+	cmd.Env = append(cmd.Env, "SIM_RACE_LOG="+filepath.Join(tmp, "race-replay"),
+		"GORACE=halt_on_error=0 exitcode=0 log_path="+filepath.Join(tmp, "race-replay"))
+	var buf bytes.Buffer
+	cmd.Stdout, cmd.Stderr = &buf, &buf
+	if err := cmd.Start(); err != nil {
+		return 2, err.Error()
+	}
+	timer := time.AfterFunc(limit+30*time.Second, func() { cmd.Process.Kill() })
+	err := cmd.Wait()
+	timer.Stop()
+	code := 0
+	if ee, ok := err.(*exec.ExitError); ok {
+		code = ee.ExitCode()
+	}
+	return code, buf.String()
+}
+
+// sameRace: two race keys describe the same defect if they share an access site.
+func sameRace(a, b string) bool {
+	if a == b {
+		return true
+	}
+	fa := strings.Split(strings.TrimPrefix(a, "race:"), "<->")
+	fb := strings.Split(strings.TrimPrefix(b, "race:"), "<->")
+	for _, x := range fa {
+		for _, y := range fb {
+			if x != "" && x == y {
+				return true
+			}
+		}
+	}
+	return false
 }
